@@ -17,7 +17,8 @@ PROP_FILE = 'Props/C10.v'
 THEOREMS = ['C10_idempotent', 'C10_ascii_clean', 'C10_canonical', 'C10_idempotent_any_encoding_refuted', 'C10_utf8_encoder_ok',
             'C10_flatten_path_idempotent', 'C10_flatten_path_no_dot_segments', 'C10_flatten_path_fixpoint',
             'C10_upper_pe_idempotent', 'C10_upper_pe_escapes_upper',
-            'C10_percent_encode_ascii_clean', 'C10_percent_encode_fixpoint']
+            'C10_percent_encode_ascii_clean', 'C10_percent_encode_fixpoint',
+            'C10_equiv_scheme_case_partial', 'C10_equiv_host_case_partial', 'C10_equiv_dot_segments_partial']
 TRUSTED = [
     'hand-written model Model/Url.v + Model/UrlLib.v of wpull/url.py, tied by the vm_compute correspondence of this run '
     '(error kind or all 14 attributes, .url, every accessor, parse_url_or_log) on generated URLs',
@@ -679,7 +680,7 @@ def classify(v):
     return classify_common(v)
 
 
-def correspondence(ctx, tag='c10', n_quick=6000, n_thorough=200000, pred=is_c10_reason, gen=None, script='c10_impl.py'):
+def correspondence(ctx, tag='c10', n_quick=6000, n_thorough=60000, pred=is_c10_reason, gen=None, script='c10_impl.py'):
     r = common.rng(tag)
     n = n_thorough if ctx.thorough else n_quick
     import time
@@ -742,7 +743,7 @@ def search(ctx, disagreements, tag='c10-search', pred=is_c10_reason, gen=None, s
     for d in disagreements:
         if 'url_hex' in d:
             cases.append({'url': d['url_hex'], 'enc': d.get('enc', 'utf-8'), 'tag': 'disagreement', 'variants': []})
-    cases += (gen or generate)(r, 15000 if not ctx.thorough else 300000, ctx.repo)
+    cases += (gen or generate)(r, 15000 if not ctx.thorough else 100000, ctx.repo)
     results = run_impl_parse(cases, script=script)
     return violations_from(cases, results, pred)
 
@@ -761,12 +762,14 @@ LEVEL_TEXT = ('Coq theorems over the executable model of wpull/url.py, for ALL i
               'IPv6 literals, ports); it is ASCII 0x21..0x7f (C10_ascii_clean); it has lower-case scheme and host, the port only when not '
               'the default, an absolute path without dot or empty segments and only upper-case escapes (C10_canonical); component laws for '
               'flatten_path, percent_encode and uppercase_percent_encoding; UTF-8 satisfies the encoder hypothesis (C10_utf8_encoder_ok). '
-              'All closed under the global context. The clause "spellings that differ only in those respects normalize to the same string" '
-              'is NOT a theorem: it is checked on the implementation for every generated URL (case, default port, dot segments, escape '
-              'case, fragment, IPv4 re-spelling variants). The model is tied to the code on every run by evaluating it inside Coq against '
-              'URLInfo.parse and all accessors.')
+              'All closed under the global context. Of the clause "spellings that differ only in those respects normalize to the same '
+              'string" three classes are theorems (C10_equiv_*_partial): scheme letter case for the whole URL and arbitrary input text; '
+              'host letter case and inserted "/.", "//", "/x/.." segments at the level of the component normalizer. Escape hex-digit '
+              'case, explicit default port, dropped fragment and IPv4/IPv6 re-spelling are NOT theorems: they are checked on the '
+              'implementation for every generated URL (variants). The model is tied to the code on every run by evaluating it inside '
+              'Coq against URLInfo.parse and all accessors.')
 LEVEL_NOTE = ('Trusted: Coq kernel + vm_compute; the hand-written model; the five library hypotheses (sampled every run, not proved, except '
               'enc_ok for utf-8 which is proved). The encoder hypothesis excludes utf-16/32, utf-7, EBCDIC and iso-2022 codecs, for which '
-              'the property is false on the real code (C10_idempotent_any_encoding_refuted; known finding with replay). Spelling '
-              'equivalence and IPv6 re-spelling are carried by the correspondence / metamorphic check only.')
+              'the property is false on the real code (C10_idempotent_any_encoding_refuted; known finding with replay). The unproved '
+              'spelling-equivalence classes are carried by the implementation-side metamorphic check only.')
 TECHNIQUE = 'Coq proofs over an executable Gallina transcription of url.py with library oracles as section hypotheses; vm_compute correspondence'
